@@ -151,8 +151,11 @@ def explore_user(ctx, props, n_prim, n_op=0, n_cyclic=0):
 
 
 def replay_user(ctx, w, props):
-    r = run_user_case(w["user_case"], w["seed"], mode=w.get("mode", "prim"))
-    for p, what in monitor_user(w["user_case"], r):
-        if p in props:
-            return what
+    # the saved schedule first, then neighbouring seeds: with the default scheduler the priorities depend on the
+    # iteration order of sets of node objects (addresses), so one seed does not pin one schedule across processes
+    for j in range(300):
+        r = run_user_case(w["user_case"], w["seed"] + j, mode=w.get("mode", "prim"))
+        for p, what in monitor_user(w["user_case"], r):
+            if p in props:
+                return what + (" (schedule seed +%d)" % j if j else "")
     return None
